@@ -8,6 +8,7 @@ from vf.sim.schedules import schedule_strategy, schedule_valid
 
 U = 1 / 64
 DURS = [-1, 0, U, 0.25, 1.0, 2.0]
+LONG = 70.0      # a computation that outlasts the 60 s safety wait of its waiters
 
 
 @functools.lru_cache(None)
@@ -31,9 +32,45 @@ def executed_lines():
     return sorted([f, l] for f, l in lines)
 
 
+@functools.lru_cache(None)
+def hit_lines():
+    """Lines of aiuti/asyncio.py executed by a call that is served from the cache (dry run on the current tree):
+    the fast path, where a preemption must land to race a lookup against another key's store."""
+    th = [{'runner': 'run', 'callers': [{'at': 0, 'key': 'a', 'cancel': None, 'timeout': None}], 'end': {'mode': 'await', 'at': 0}}]
+    base = H.run({'cache': 'mapping', 'threads': th, 'plans': [{'dur': 0.25, 'outcome': 'ret'}], 'sched': {'mode': 'none'}})['lines']
+    th2 = [{'runner': 'run', 'callers': [{'at': 0, 'key': 'a', 'cancel': None, 'timeout': None},
+                                         {'at': 1.0, 'key': 'a', 'cancel': None, 'timeout': None}], 'end': {'mode': 'await', 'at': 0}}]
+    both = H.run({'cache': 'mapping', 'threads': th2, 'plans': [{'dur': 0.25, 'outcome': 'ret'}], 'sched': {'mode': 'none'}})['lines']
+    wrapper = [[f, l] for f, l in sorted(both) if f == 'asyncio.py']
+    # the hit path is a prefix of the wrapper body: keep the first dozen wrapper lines (by line number)
+    first = min(l for f, l in wrapper) if wrapper else 0
+    return [[f, l] for f, l in wrapper if first <= l <= first + 40][:14]
+
+
+@st.composite
+def evict_race(draw):
+    """Bounded cache (one entry), key a cached by thread 0 and asked for again at the very instant thread 1's
+    computation of key b is stored - the lookup races the eviction."""
+    d0 = draw(st.sampled_from([0, U, 0.25]))
+    d1 = draw(st.sampled_from([0.25, 1.0]))
+    tb = draw(st.sampled_from([0.25, 0.5, 1.0]))
+    t2 = tb + d1 + draw(st.sampled_from([0, 0, 0, U, -U]))
+    threads = [
+        {'runner': 'run', 'callers': [{'at': 0.0, 'key': 'a', 'cancel': None, 'timeout': None},
+                                      {'at': t2, 'key': 'a', 'cancel': None, 'timeout': None}] +
+         ([{'at': t2, 'key': 'a', 'cancel': None, 'timeout': None}] if draw(st.booleans()) else []),
+         'end': {'mode': 'await', 'at': 0}},
+        {'runner': 'run', 'callers': [{'at': tb, 'key': 'b', 'cancel': None, 'timeout': None}], 'end': {'mode': 'await', 'at': 0}}]
+    if draw(st.booleans()):
+        threads.append({'runner': 'run', 'callers': [{'at': t2, 'key': 'a', 'cancel': None, 'timeout': None}],
+                        'end': {'mode': 'await', 'at': 0}})
+    return {'cache': 'lru1', 'threads': threads,
+            'plans': [{'dur': d0, 'outcome': 'ret'}, {'dur': d1, 'outcome': 'ret'}, {'dur': draw(st.sampled_from([0, U, 0.25])), 'outcome': 'ret'}]}
+
+
 @st.composite
 def program(draw, emphasis='c01'):
-    d0 = draw(st.sampled_from(DURS))
+    d0 = draw(st.sampled_from(DURS + [LONG])) if draw(st.integers(0, 5)) == 0 else draw(st.sampled_from(DURS))
     L = draw(st.sampled_from([0, 0.25, 0.5, 1.0]))
     lm = sorted({0, L, max(d0, 0), L + max(d0, 0)})
 
@@ -41,10 +78,11 @@ def program(draw, emphasis='c01'):
         return max(0.0, draw(st.sampled_from(lm)) + draw(st.sampled_from([0, 0, 0, U, -U, 0.25])))
 
     fail_p = {'c01': 1, 'c05': 2, 'c06': 3}[emphasis]
-    plans = [{'dur': d0, 'outcome': draw(st.sampled_from(['ret'] * 6 + ['raise'] * fail_p))}]
+    sync_p = 0 if emphasis == 'c01' else 1
+    plans = [{'dur': d0, 'outcome': draw(st.sampled_from(['ret'] * 6 + ['raise'] * fail_p + ['raise_sync'] * sync_p))}]
     for _ in range(draw(st.integers(0, 4))):
         plans.append({'dur': draw(st.sampled_from(DURS)),
-                      'outcome': draw(st.sampled_from(['ret'] * 4 + ['raise'] * fail_p))})
+                      'outcome': draw(st.sampled_from(['ret'] * 4 + ['raise'] * fail_p + ['raise_sync'] * sync_p))})
     nthreads = draw(st.integers(2, 4))
     two_keys = draw(st.integers(0, 5)) == 0
     threads = []
@@ -78,14 +116,26 @@ def program(draw, emphasis='c01'):
             if mode == 'await':
                 th['end'] = {'mode': draw(st.sampled_from(['leave', 'stop'])), 'at': end_at}
         threads.append(th)
-    return {'cache': draw(st.sampled_from(['default', 'default', 'mapping'])),
-            'threads': threads, 'plans': plans}
+    caches = ['default', 'default', 'mapping'] if emphasis == 'c01' else ['default', 'default', 'mapping', 'lru1']
+    cache = draw(st.sampled_from(caches))
+    if cache == 'lru1':
+        # a bounded cache is only interesting when two keys evict each other
+        for t in threads:
+            for c in t['callers']:
+                c['key'] = draw(st.sampled_from('ab'))
+    return {'cache': cache, 'threads': threads, 'plans': plans}
 
 
 def case_strategy(emphasis):
     lines = executed_lines()
     sched = schedule_strategy(max_decision=900, lines=lines, nthreads=4, walk_len=400)
-    return st.builds(lambda p, s: dict(p, sched=s), program(emphasis), sched)
+    main = st.builds(lambda p, s: dict(p, sched=s), program(emphasis), sched)
+    if emphasis == 'c01':
+        return main
+    race_sched = schedule_strategy(max_decision=300, lines=hit_lines(), nthreads=3, walk_len=120,
+                                   modes=('line', 'line', 'line', 'sparse', 'pct'))
+    race = st.builds(lambda p, s: dict(p, sched=s), evict_race(), race_sched)
+    return st.one_of(main, main, main, main, main, race)
 
 
 def structure(case, hist):
@@ -124,6 +174,10 @@ def structure(case, hist):
         cl.append('left-pending')
     if any(r['kind'] == 'raise' for r in invs):
         cl.append('inv-failed')
+    if case['cache'] == 'lru1':
+        cl.append('evicting-cache')
+    if any(p['dur'] == LONG for p in case['plans'][:max(1, len(invs))]):
+        cl.append('computation-longer-than-60s')
     if any(r['kind'] == 'cancel' for r in invs):
         cl.append('inv-cancelled')
     if any(c['cancel_req'] for c in callers.values()):
@@ -144,7 +198,7 @@ def valid(case):
         if not case['threads'] or not case['plans'] or not schedule_valid(case['sched']):
             return False
         for p in case['plans']:
-            if p['outcome'] not in ('ret', 'raise') or not (-1 <= p['dur'] <= 2):
+            if p['outcome'] not in ('ret', 'raise', 'raise_sync') or not (-1 <= p['dur'] <= 2 or p['dur'] == LONG):
                 return False
         for t in case['threads']:
             if t['runner'] not in ('run', 'manual', 'resume') or t['end']['mode'] not in ('await', 'leave', 'stop'):
@@ -160,7 +214,7 @@ def valid(case):
                     return False
                 if c['timeout'] is not None and c['timeout'] <= 0:
                     return False
-        return case['cache'] in ('default', 'mapping')
+        return case['cache'] in ('default', 'mapping', 'lru1')
     except (KeyError, TypeError, IndexError):
         return False
 
@@ -186,7 +240,59 @@ def simplify(case):
     if case['cache'] != 'default':
         yield dict(copy.deepcopy(case), cache='default')
     for pi, p in enumerate(case['plans']):
-        if p['outcome'] == 'raise':
+        if p['outcome'] in ('raise', 'raise_sync'):
             n = copy.deepcopy(case)
             n['plans'][pi]['outcome'] = 'ret'
             yield n
+
+
+# ---- bounded schedule enumeration for a few canonical small programs -------------------------------------
+def _c(at, key='a', cancel=None, timeout=None):
+    return {'at': at, 'key': key, 'cancel': cancel, 'timeout': timeout}
+
+
+def canonical_programs(emphasis):
+    aw = {'mode': 'await', 'at': 0}
+    progs = [
+        # take-over of a dead marker, third caller arriving while the new owner computes
+        {'cache': 'default', 'plans': [{'dur': 1.0, 'outcome': 'ret'}],
+         'threads': [{'runner': 'run', 'callers': [_c(0.0)], 'end': {'mode': 'leave', 'at': 0.5}},
+                     {'runner': 'run', 'callers': [_c(0.5)], 'end': aw}, {'runner': 'run', 'callers': [_c(0.75)], 'end': aw}]},
+        # cross-loop waiters and a failing first computation
+        {'cache': 'default', 'plans': [{'dur': 0.5, 'outcome': 'raise'}, {'dur': 0.25, 'outcome': 'ret'}],
+         'threads': [{'runner': 'run', 'callers': [_c(0.0)], 'end': aw}, {'runner': 'run', 'callers': [_c(0.25), _c(0.25)], 'end': aw}]},
+        # a waiter is cancelled while another keeps waiting
+        {'cache': 'mapping', 'plans': [{'dur': 0.5, 'outcome': 'ret'}],
+         'threads': [{'runner': 'run', 'callers': [_c(0.0)], 'end': aw}, {'runner': 'run', 'callers': [_c(U, cancel=0.25)], 'end': aw},
+                     {'runner': 'run', 'callers': [_c(0.25)], 'end': aw}]},
+        # computing loop closed with the computation pending, waiter on another loop
+        {'cache': 'default', 'plans': [{'dur': 1.0, 'outcome': 'ret'}, {'dur': 0.25, 'outcome': 'ret'}],
+         'threads': [{'runner': 'manual', 'callers': [_c(0.0)], 'end': {'mode': 'leave', 'at': 0.25}},
+                     {'runner': 'run', 'callers': [_c(U)], 'end': aw}]},
+    ]
+    if emphasis != 'c01':
+        progs += [
+            # bounded cache: a lookup of key a racing the store of key b
+            {'cache': 'lru1', 'plans': [{'dur': 0.25, 'outcome': 'ret'}, {'dur': 1.0, 'outcome': 'ret'}, {'dur': 0, 'outcome': 'ret'}],
+             'threads': [{'runner': 'run', 'callers': [_c(0.0), _c(1.25)], 'end': aw}, {'runner': 'run', 'callers': [_c(0.25, 'b')], 'end': aw}]},
+            {'cache': 'lru1', 'plans': [{'dur': 0, 'outcome': 'ret'}, {'dur': 0.25, 'outcome': 'ret'}, {'dur': 0, 'outcome': 'ret'}],
+             'threads': [{'runner': 'run', 'callers': [_c(0.0), _c(0.5)], 'end': aw}, {'runner': 'run', 'callers': [_c(0.25, 'b')], 'end': aw}]},
+            # a loop stopped with the computation and a same-loop waiter pending, taken over, then run again
+            {'cache': 'default', 'plans': [{'dur': 1.0, 'outcome': 'ret'}, {'dur': 0.25, 'outcome': 'ret'}],
+             'threads': [{'runner': 'resume', 'pause': 1.0, 'callers': [_c(0.0), _c(U)], 'end': {'mode': 'leave', 'at': 0.25}},
+                         {'runner': 'run', 'callers': [_c(0.5)], 'end': aw}]},
+        ]
+    return progs
+
+
+def single_preemption_cases(emphasis, shard=0, nshards=1):
+    """Every schedule with exactly one preemption (decision index x thread to switch to) of each canonical
+    program: bounded enumeration, still generated search against the same oracle."""
+    k = 0
+    for p in canonical_programs(emphasis):
+        d = H.run(dict(p, sched={'mode': 'none'}))['decisions']
+        for dec in range(1, d + 8):
+            for to in range(1, len(p['threads']) + 1):
+                k += 1
+                if k % nshards == shard:
+                    yield dict(p, sched={'mode': 'sparse', 'pre': [[dec, to]]}, enumerated=True)
